@@ -172,6 +172,26 @@ def step (g : Graph) (st : St) (n : Nat) : St :=
     else { st with bound := n :: st.bound, ran := st.ran ++ [n] }
   else { st with stuck := true }
 
+def dedup (l : List Nat) : List Nat := l.foldl (fun acc x => if acc.contains x then acc else acc ++ [x]) []
+
+/-- ↔ the neighbours `BasicBlockVisitor::next` pushes: incoming and outgoing, any edge kind -/
+def nbrs (g : Graph) (n : Nat) : List Nat := g.preds n ++ g.succs n
+
+/-- ↔ the filter on those neighbours, for the block that ends in `s`: not beyond `s`, no other
+    `MatchBranching` node, and able to reach a terminal `s` can reach. -/
+def allowed (g : Graph) (s n : Nat) : Bool :=
+  decide (n ≤ s) && (g.kind n != .branch || n == s) && g.shares n s
+
+/-- the nodes the visitor discovers from `s`: connected to it through allowed nodes, whatever the
+    direction of the edges (nodes that already have a fragment are walked through as well). -/
+def compFrom (g : Graph) (s : Nat) : Nat → List Nat → List Nat → List Nat
+  | 0, _, seen => seen
+  | fuel + 1, frontier, seen =>
+    let next := dedup ((frontier.flatMap (nbrs g)).filter (fun n => allowed g s n && !seen.contains n))
+    if next.isEmpty then seen else compFrom g s fuel next (seen ++ next)
+
+def component (g : Graph) (s : Nat) : List Nat := compFrom g s g.size [s] [s]
+
 def minOf : List Nat → Option Nat
   | [] => none
   | a :: l => some (l.foldl Nat.min a)
@@ -180,7 +200,9 @@ def minOf : List Nat → Option Nat
 def scrutinee (g : Graph) (b : Nat) : Option Nat := (g.dataPreds b).head?
 
 /-- ↔ `_codegen_callable_closure_body`, executed: run the basic block that ends in the first pending
-    `MatchBranching` ancestor of the target (or in the target itself), then the arm the outcome selects. -/
+    `MatchBranching` ancestor of the target (or in the target itself) — the nodes `BasicBlockVisitor`
+    discovers from it that have no fragment yet, as statements sorted by position — then the arm the outcome
+    selects. -/
 def exec (g : Graph) (fails : Kind → Bool) : Nat → List Nat → List Nat → St → St × Option Nat
   | 0, _, _, st => ({ st with stuck := true }, none)
   | fuel + 1, targets, fin, st =>
@@ -188,8 +210,7 @@ def exec (g : Graph) (fails : Kind → Bool) : Nat → List Nat → List Nat →
     | none => ({ st with stuck := true }, none)
     | some t =>
       let s := (minOf ((g.branchAnc t).filter (fun b => !fin.contains b))).getD t
-      let blk := (List.range (s + 1)).filter
-        (fun n => !fin.contains n && (g.kind n != .branch || n == s) && g.shares n s)
+      let blk := (List.range (s + 1)).filter (fun n => !fin.contains n && (component g s).contains n)
       let st := blk.foldl (step g) st
       if g.kind s == .branch then
         match scrutinee g s with
@@ -300,12 +321,14 @@ def matcherSuccs (g : Graph) (x : Nat) : List Nat :=
 
 /-- what the splice and the injection expect of the graph the fixed point of `build_call_graph` hands
     them: every edge joins two nodes; no observer or branching node yet; every error handler has a child
-    (its `IntoResponse`, not a matcher) and a `pavex::Error::new`; every fallible node has its two matchers;
+    (its `IntoResponse`, not a matcher) and — if there are observers to attach — a `pavex::Error::new`;
+    every fallible node has its two matchers;
     one error handler per fallible node. -/
-def spliceReady (g : Graph) : Bool :=
+def spliceReady (g : Graph) (withObservers : Bool) : Bool :=
   g.edges.all (fun e => decide (e.src < g.size) && decide (e.dst < g.size)) &&
   countKind g isObserver == 0 && countKind g (· == .branch) == 0 &&
-  (ehNodes g).all (fun x => decide (x < g.size) && (g.succs x).head?.isSome && (errorNewOf g x).isSome &&
+  (ehNodes g).all (fun x => decide (x < g.size) && (g.succs x).head?.isSome &&
+    (!withObservers || (errorNewOf g x).isSome) &&
     (match (g.succs x).head? with
      | some c => g.kind c != .errMatch
      | none => true)) &&
@@ -366,8 +389,6 @@ def ehMatchers (g : Graph) (h : Nat) : List Nat :=
   (g.dataPreds h).filter (fun m => g.kind m == .errMatch) ++
   ((g.dataPreds h).filter (fun e => g.kind e == .errorNew)).flatMap
     (fun e => (g.dataPreds e).filter (fun m => g.kind m == .errMatch))
-
-def dedup (l : List Nat) : List Nat := l.foldl (fun acc x => if acc.contains x then acc else acc ++ [x]) []
 
 /-- the nodes `t` is computed from (through arguments). -/
 def ancFrom (g : Graph) : Nat → List Nat → List Nat → List Nat
